@@ -61,3 +61,62 @@ Proof.
   destruct (sm_load offs vb) as [cur|]; [destruct (o_seq o <? o_seq cur)|]; cbn [fst snd];
     (split; [try exact H1; apply inv_store; exact H1 | try exact H2; exact Hd]).
 Qed.
+
+(* ---- checkpoint.Save's two walks (stream/checkpoint.go): offsets.Range builds the dump, dirtyOffsets.Range the set of
+   vBuckets to write; the model walks the ascending list of vBucket ids instead ---- *)
+Definition c_dump (offs : smap_of offset) : list (N * doc) := map (fun kv => (fst kv, doc_of (snd kv))) offs.
+Definition c_dirty (dirty : smap_of bool) : list N := map fst (filter (fun kv => snd kv) dirty).
+
+Lemma lookup_c_dump offs vb : lookup_doc (c_dump offs) vb = option_map doc_of (sm_load offs vb).
+Proof.
+  induction offs as [|[a o] r IH]; cbn [c_dump map lookup_doc sm_load fst snd]; [reflexivity|].
+  destruct (a =? vb); [reflexivity|exact IH].
+Qed.
+
+Lemma lookup_app l1 l2 vb : lookup_doc (l1 ++ l2) vb = match lookup_doc l1 vb with Some d => Some d | None => lookup_doc l2 vb end.
+Proof.
+  induction l1 as [|[k d] r IH]; cbn [app lookup_doc]; [reflexivity|].
+  destruct (k =? vb); [reflexivity|exact IH].
+Qed.
+
+Lemma lookup_dump_of f vbs vb :
+  lookup_doc (dump_of f vbs) vb = if mem vb vbs then option_map doc_of (f vb) else None.
+Proof.
+  unfold dump_of, mem. induction vbs as [|a r IH]; cbn [flat_map existsb]; [reflexivity|].
+  rewrite lookup_app, IH. destruct (N.eqb_spec vb a) as [->|Hne]; cbn [orb].
+  - destruct (f a) as [o|]; cbn [lookup_doc option_map].
+    + rewrite N.eqb_refl. reflexivity.
+    + destruct (existsb (N.eqb a) r); reflexivity.
+  - destruct (f a) as [o|]; cbn [lookup_doc]; [|reflexivity].
+    destruct (N.eqb_spec a vb) as [E|E]; [congruence|reflexivity].
+Qed.
+
+Lemma c_dump_is_dump offs f vbs :
+  (forall k, sm_load offs k = f k) -> (forall k, f k <> None -> mem k vbs = true) ->
+  forall vb, lookup_doc (c_dump offs) vb = lookup_doc (dump_of f vbs) vb.
+Proof.
+  intros Hr Hk vb. rewrite lookup_c_dump, lookup_dump_of, Hr.
+  destruct (mem vb vbs) eqn:E; [reflexivity|].
+  destruct (f vb) as [o|] eqn:F; [|reflexivity].
+  assert (H : mem vb vbs = true) by (apply Hk; congruence). congruence.
+Qed.
+
+Lemma in_dirty_of g vbs vb : In vb (dirty_of g vbs) <-> In vb vbs /\ g vb = Some true.
+Proof.
+  unfold dirty_of. rewrite in_flat_map. split.
+  - intros [x [Hx Hin]]. destruct (g x) as [[|]|] eqn:E; cbn [In] in Hin; try tauto.
+    destruct Hin as [->|[]]. tauto.
+  - intros [Hin Hg]. exists vb. split; [exact Hin|]. rewrite Hg. left; reflexivity.
+Qed.
+
+Lemma c_dirty_is_dirty dirty g vbs : sm_inv dirty ->
+  (forall k, sm_load dirty k = g k) -> (forall k, g k <> None -> In k vbs) ->
+  forall vb, In vb (c_dirty dirty) <-> In vb (dirty_of g vbs).
+Proof.
+  intros Hi Hr Hk vb. rewrite in_dirty_of. unfold c_dirty. rewrite in_map_iff. split.
+  - intros [[k b] [Hk1 Hin]]. cbn [fst] in Hk1; subst k. apply filter_In in Hin. destruct Hin as [Hin Hb].
+    cbn [snd] in Hb; subst b. apply (in_load dirty vb true Hi) in Hin. rewrite Hr in Hin.
+    split; [apply Hk; congruence|exact Hin].
+  - intros [_ Hg]. exists (vb, true). split; [reflexivity|]. apply filter_In. split; [|reflexivity].
+    apply (in_load dirty vb true Hi). rewrite Hr. exact Hg.
+Qed.
